@@ -107,6 +107,14 @@ Copy(n) ==
     [] n.t = "obj" -> ObjN([i \in 1..Len(n.m) |-> [k |-> Copy(n.m[i].k), v |-> Copy(n.m[i].v)]], Len(n.m), NoMap)
     [] OTHER -> n
 
+\* CopyFrom(..., copyString = true): borrowed strings are copied as well, the result owns every string
+RECURSIVE CopyOwn(_)
+CopyOwn(n) ==
+  CASE n.t = "str" -> Str(n.b, "free")
+    [] n.t = "arr" -> ArrN([i \in 1..Len(n.e) |-> CopyOwn(n.e[i])], Len(n.e))
+    [] n.t = "obj" -> ObjN([i \in 1..Len(n.m) |-> [k |-> CopyOwn(n.m[i].k), v |-> CopyOwn(n.m[i].v)]], Len(n.m), NoMap)
+    [] OTHER -> n
+
 Grow(cap) == IF cap = 0 THEN 16 ELSE cap + ((cap + 1) \div 2)       \* :672-706, :787-804
 
 \* ------------------------------------------------------------------ node operations: each returns the
@@ -277,6 +285,10 @@ CopyToAux == \E c \in Cursors \ {-1} :
   SetTarget(-1, Copy(Target(c)), RTarget(c), [op |-> "copytoaux", c |-> c])
 CopyFromAux == \E c \in Cursors \ {-1} :
   SetTarget(c, Copy(aux), raux, [op |-> "copyfromaux", c |-> c])
+CopyToAuxOwn == \E c \in Cursors \ {-1} :
+  SetTarget(-1, CopyOwn(Target(c)), RTarget(c), [op |-> "copytoauxown", c |-> c])
+CopyFromAuxOwn == \E c \in Cursors \ {-1} :
+  SetTarget(c, CopyOwn(aux), raux, [op |-> "copyfromauxown", c |-> c])
 \* target.Swap(aux)
 SwapAux == \E c \in Cursors \ {-1} :
   /\ root' = IF c = 0 THEN aux ELSE WithChild(root, c, aux)
@@ -301,7 +313,7 @@ MoveToAux == \E c \in Cursors \ {-1} :
 Next == \/ SetScalar \/ SetString \/ SetArray \/ SetObject
         \/ PushBack \/ PopBack \/ Erase \/ Reserve \/ Clear
         \/ AddMember \/ RemoveMember \/ EraseMember \/ MemberReserve \/ CreateMap \/ DestroyMap
-        \/ CopyToAux \/ CopyFromAux \/ SwapAux \/ MoveChildUp \/ MoveToAux
+        \/ CopyToAux \/ CopyFromAux \/ CopyToAuxOwn \/ CopyFromAuxOwn \/ SwapAux \/ MoveChildUp \/ MoveToAux
 
 Spec == Init /\ [][Next]_vars
 
@@ -371,7 +383,17 @@ EqOk == (~RHasDupDeep(rroot) /\ ~RHasDupDeep(raux)) =>
           /\ IEq(aux, root) = REq(rroot, raux)
           /\ IEq(root, root) /\ IEq(root, Copy(root))
 
-Inv == Refines /\ MapOk /\ CapOk /\ LookupOk /\ LedgerOk /\ EqOk
+\* a copy made with copyString = true borrows nothing
+RECURSIVE Borrows(_)
+Borrows(n) ==
+  CASE n.t = "str" -> n.own # "free"
+    [] n.t = "arr" -> \E i \in 1..Len(n.e) : Borrows(n.e[i])
+    [] n.t = "obj" -> \E i \in 1..Len(n.m) : Borrows(n.m[i].k) \/ Borrows(n.m[i].v)
+    [] OTHER -> FALSE
+OwnOk == /\ last.op = "copytoauxown" => ~Borrows(aux)
+         /\ last.op = "copyfromauxown" => ~Borrows(Target(last.c))
+
+Inv == Refines /\ MapOk /\ CapOk /\ LookupOk /\ LedgerOk /\ EqOk /\ OwnOk
 
 Constraint == /\ \A n \in AllConts(root) \cup AllConts(aux) : Size(n) <= MaxSize
               /\ Nodes(root) + Nodes(aux) <= MaxNodes
